@@ -464,7 +464,8 @@ void * isa_l_common_init(struct ec_backend_args *args, void *backend_sohandle,
         /* the word size in bytes (w / 8) is used as a divisor */
         goto error;
     }
-    {
+    if (desc->w < 62) {
+        /* (for larger w the shift below is undefined and no k + m can exceed it) */
         long long max_symbols = 1LL << desc->w;
         if ((desc->k + desc->m) > max_symbols) {
             goto error;
